@@ -11,6 +11,7 @@ Structural clauses decided:
     the fingerprint is computed over every frame received so far by the one-shot function; parsed_offset = start of the
     parsed slice + bytes consumed; reset() restores every field
  R4 the HEADERS payload handed to HPACK honours the frame flags (shared with C16-R1)
+ R2 (also) narrowing conversions of the HTTP crate are proven or reviewed to fit
 """
 from ..engine import cfg as C
 from ..engine import decision as D
